@@ -213,10 +213,14 @@ def _kernel_for_map(env, K, kind, ls):
         return K.SubsetAddRQ(slice(1, None), order=2, length_scale=_arr(env, ls[1:3]), scale=sc, alpha=env.const(2)), 3
     if kind == "addllrbf_tail":
         return K.SubsetAddLLRBF(slice(1, None), order=2, length_scale=_arr(env, ls[1:3]), scale=sc, alpha=env.const(2)), 3
+    if kind == "const*rbf":               # get_mapped_gp_evaluator_simple: a constant times a plain RBF over all features
+        return K.DiffConstantKernel(env.par("c0", "pos", lo="1/8", hi="8")) * K.DiffRBF(length_scale=_arr(env, ls[:2])), 2
+    if kind == "const*srbf_list":
+        return K.DiffConstantKernel(env.par("c0", "pos", lo="1/8", hi="8")) * K.SubsetRBF([2, 0], length_scale=_arr(env, [ls[2], ls[0]])), 3
     raise ValueError(kind)
 
 
-def h_map_additive(env, kind, nctrl=2):
+def h_map_additive(env, kind, nctrl=2, mapper="additive"):
     """get_mapped_gp_evaluator_additive: the spline grids cover the bounds of the features they are evaluated on, and at every
     tensor-grid node  const + sum_t scale_t * f_t[node]  equals the GP predictive function  sum_a k(x_node, x_a) alpha_a"""
     import contextlib
@@ -232,7 +236,8 @@ def h_map_additive(env, kind, nctrl=2):
     saved = _map_stubs(mt)
     try:
         with contextlib.redirect_stdout(io.StringIO()):
-            ok, out = env.attempt("mapper_returns", lambda: mt.get_mapped_gp_evaluator_additive(kern, Xc.copy(), al.copy(), flist, max_ngrid=3))
+            fn_ = mt.get_mapped_gp_evaluator_additive if mapper == "additive" else mt.get_mapped_gp_evaluator_simple
+            ok, out = env.attempt("mapper_returns", lambda: fn_(kern, Xc.copy(), al.copy(), flist, max_ngrid=3))
     finally:
         mt.UCGrid, mt.filter_cubic = saved
     if not ok:
@@ -302,6 +307,8 @@ def tasks(tier):
         mk += ["sarbf_list", "sarbf_order1_tail", "addllrbf_tail"]
     for kind in mk:
         out.append(Task("map_additive/%s" % kind, h_map_additive, dict(kind=kind), mods="kernels"))
+    for kind in ("const*rbf", "const*srbf_list"):
+        out.append(Task("map_simple/%s" % kind, h_map_additive, dict(kind=kind, mapper="simple"), mods="kernels"))
     for name in ("DiffARBFV2", "DiffAddLLRBF", "DiffAddRQ"):
         out.append(Task("k0_for_mapping/%s" % name, h_k0_for_mapping, dict(name=name), mods="kernels"))
     return out
@@ -325,7 +332,7 @@ def extra_evidence(results):
 META = dict(
     explanation="the Python wrappers are executed symbolically and their FFI call runs clang's LLVM IR of model_utils.c in a symbolic interpreter "
                 "(exact reals, bounds-checked buffers); z3 decides equality with the Python kernel sum and its mechanical gradient",
-    functions=["ciderpress/dft/xc_evaluator.py: RBFEvaluator/AntisymRBFEvaluator/SpinRBFEvaluator.__init__/__call__",
+    functions=['ciderpress/models/kernel_plans/map_tools.py: get_mapped_gp_evaluator_simple (map_simple/*)', "ciderpress/dft/xc_evaluator.py: RBFEvaluator/AntisymRBFEvaluator/SpinRBFEvaluator.__init__/__call__",
                "ciderpress/lib/mod_cider/model_utils.c (clang -O1 IR): evaluate_se_kernel, evaluate_se_kernel_antisym, evaluate_se_kernel_spin, evaluate_se_kernel_spin_v2, _evaluate_se, _add_deriv",
                "ciderpress/models/kernels.py: DiffRBF, SubsetRBF, DiffAntisymRBF, DiffConstantKernel, DiffProduct, DiffLinearKernel (oracle side)",
                "ciderpress/models/kernel_plans/map_tools.py: get_mapped_gp_evaluator_linear"],
